@@ -262,4 +262,24 @@ theorem inflight_delete_resurrects :
 example : let s := run true (init ["p0", "p1"]) [.change "p2", .start, .delete "p2", .storeModule, .storeAggs]
     "p2" ∉ s.files ∧ "p2" ∉ s.modules ∧ "p2" ∉ s.aggs := by decide
 
+/-- **check_then_store_resurrects** (the code between a316f0a/180f173 and 8be5692): the stores were guarded, but the
+check and the store were two steps. Open a file, let the worker read it and pass its check, delete the file, let the
+worker store — module and aggregates of the removed file are back. The schedule the C15 check hit under load with
+`VERIF_SEED=9` (`change p1/f1; delete p1/f1` with no pause). -/
+theorem check_then_store_resurrects :
+    let t := run2 ⟨init ["p0", "p1"], false⟩
+      [.ev (.change "p2"), .ev .start, .check, .ev (.delete "p2"), .ev .storeModule, .ev .storeAggs]
+    "p2" ∉ t.s.files ∧ "p2" ∈ t.s.modules ∧ "p2" ∈ t.s.aggs := by decide
+
+/-- **atomic_is_check_then_store_without_gap**: when nothing happens between the check and the stores, the two-step
+worker is the one-step worker of `step true` — which is what holding the lock of `Delete` across both achieves. -/
+theorem atomic_is_check_then_store_without_gap (s : St) (c : Bool) :
+    (run2 ⟨s, c⟩ [.check, .ev .storeModule]).s = step true s .storeModule ∧
+    (run2 ⟨s, c⟩ [.check, .ev .storeAggs]).s = step true s .storeAggs := by
+  constructor <;>
+  · simp only [run2, List.foldl_cons, List.foldl_nil, step2, step]
+    cases s.inflight with
+    | none => rfl
+    | some u => by_cases h : u ∈ s.files <;> simp [h]
+
 end RegalModel.LspCache
